@@ -307,7 +307,16 @@ def r21(orig, rule):
     return 'let %s = %s; %s' % (name, norm(orig), name)
 
 
+def r12m(orig, rule):
+    # X.map(|p| EXPR)  on an Option (tail expression)  ->  (match X { Some(p) => Some(EXPR), None => None })
+    s = norm(orig)
+    m = _m(r'(.+?) \. map \( \| (%s) \| (.+) \)' % ID, s)
+    x, p_, e = m.groups()
+    return '(match %s { Some(%s) => Some(%s), None => None })' % (x, p_, e)
+
+
 GENERATORS = {
+    'R12m': r12m,
     'R21': r21,
     'R9f': r9f, 'R17b': r17b,
     'R13': r13,
